@@ -82,15 +82,10 @@ def check_python(report):
     wr = m.module("gapic.schema.wrappers").path
     gst = m.member(meth, "grpc_stub_type")
     r.need(gst is not None, "Method.grpc_stub_type")
-    ret = [n for n in ast.walk(gst.node) if isinstance(n, ast.Return)]
     r.instance("grpc_stub_type")
-    ok = False
-    if len(ret) == 1 and isinstance(ret[0].value, ast.Call):
-        c = ret[0].value
-        k = {kk.arg: ast.unparse(kk.value) for kk in c.keywords}
-        ok = (ast.unparse(c.func) == "'{client}_{server}'.format"
-              and k.get("client") == "'stream' if self.client_streaming else 'unary'"
-              and k.get("server") == "'stream' if self.server_streaming else 'unary'")
+    from ..pymodel import nmatch
+    ok = nmatch(m, "f\"{'stream' if self.client_streaming else 'unary'}_{'stream' if self.server_streaming else 'unary'}\"",
+                "gapic.schema.wrappers.Method.grpc_stub_type") is not None
     r.check(ok, wr, gst.node.lineno, "Method.grpc_stub_type",
             "must be '{client}_{server}' with client<-client_streaming, server<-server_streaming, 'stream' on the true arm")
     vd = m.member(meth, "void")
